@@ -176,6 +176,19 @@ CHECKS = {
         technique="TLA+ error-propagation model (TLC exhaustive) + model-generated histories x enumerated I/O faults on the code + TLC trace monitor",
         design_ref="DESIGN.md section 5 C14",
     ),
+    "C16": dict(
+        level="model_checking",
+        text="Ownership.tla models pooled page buffers, release versus detach when a reader leaves a page (also in "
+             "the middle of one ReadRows call), clones, typed copies and churn; TLC checks for every short history that "
+             "nothing the caller may still look at lives in pooled memory, and that the same model without detach fails. "
+             "TLC-simulated histories run, with pooled memory poisoned on release (hook), on row readers, Reader, value "
+             "readers, merged and converted row groups, GenericReader and Read[T]; every value is deep-copied on receipt "
+             "and re-compared after every later operation, Close and churn; SnapMon.tla applies the validity windows.",
+        note="Single goroutine (concurrent churn is C15's); one row type; the poison hook makes dangling references "
+             "deterministic but only for memory that goes through the slice pools.",
+        technique="TLA+ ownership model (TLC exhaustive) + TLC-simulated histories replayed on the code with a poison hook + TLC trace monitor",
+        design_ref="DESIGN.md section 5 C16",
+    ),
     "C17": dict(
         level="model_checking",
         text="Reset.tla models which slice-typed footer fields alias the live column writers once a row group is "
